@@ -1015,3 +1015,231 @@ Proof.
       intros pl sl multi. induction gs as [|g gs IH]; [constructor|]. cbn [map]. constructor; [|exact IH].
       apply goroutine_block_head.
 Qed.
+
+(* ================================================================== *)
+(* the hypotheses clean_sig from the strings of the dump alone          *)
+(* ================================================================== *)
+Section ArgInd.
+  Variable P : Arg -> Prop.
+  Hypothesis HP : forall g n v p t i fv fp fe, Forall P fv -> P (MkArg g n v p t i fv fp fe).
+  Fixpoint Arg_ind_ui (a : Arg) : P a :=
+    match a with
+    | MkArg g n v p t i fv fp fe =>
+        HP g n v p t i fv fp fe
+          ((fix go (l : list Arg) : Forall P l :=
+              match l with
+              | [] => Forall_nil P
+              | x :: l' => @Forall_cons Arg P x l' (Arg_ind_ui x) (go l')
+              end) fv)
+    end.
+End ArgInd.
+
+(* no byte k in any name or pre-rendered field of the argument tree *)
+Fixpoint arg_clean (k : N) (a : Arg) : bool :=
+  match a with
+  | MkArg _ n _ _ _ _ fv fp _ =>
+      nob k n && forallb (nob k) fp &&
+      (fix go (l : list Arg) : bool := match l with [] => true | x :: l' => arg_clean k x && go l' end) fv
+  end.
+
+Definition args_clean (k : N) (a : Args) : bool :=
+  forallb (arg_clean k) (Values a) && forallb (nob k) (Processed a).
+
+Definition dump_clean_call (k : N) (c : Call) : bool :=
+  nob k (DirName (CFunc c)) && nob k (FName (CFunc c)) &&
+  nob k (LocalSrcPath c) && nob k (RemoteSrcPath c) && nob k (RelSrcPath c) && nob k (SrcName c) &&
+  args_clean k (CArgs c).
+
+Definition dump_clean_sig (k : N) (s : Signature) : bool :=
+  nob k (State s) && forallb (dump_clean_call k) (Calls (CreatedBy s)) && forallb (dump_clean_call k) (Calls (SStack s)).
+
+Lemma arg_clean_eq k ag n v ip tl ia fv fp fe :
+  arg_clean k (MkArg ag n v ip tl ia fv fp fe) = nob k n && forallb (nob k) fp && forallb (arg_clean k) fv.
+Proof.
+  reflexivity.
+Qed.
+
+Lemma arg_string_eq ag n v ip tl ia fv fp fe :
+  arg_string (MkArg ag n v ip tl ia fv fp fe) =
+  match n with
+  | _ :: _ => n
+  | [] =>
+      if tl then s2b "_" else
+      if ag then
+        s2b "{" ++ join ((match fp with _ :: _ => fp | [] => map arg_string fv end) ++
+                         (if fe then [s2b "..."] else [])) (s2b ", ") ++ s2b "}"
+      else if N.ltb v 10 then [48 + v]%N
+      else s2b "0x" ++ N_to_hex false v
+  end.
+Proof.
+  cbn [arg_string]. destruct n; [|reflexivity]. destruct tl; [reflexivity|]. destruct ag; [|reflexivity].
+  destruct fp; reflexivity.
+Qed.
+
+Section DumpClean.
+  Variable k : N.
+  Hypothesis Hk : (k < 32)%N.
+
+  Lemma join_clean (l : list bytes) (sep : bytes) :
+    Forall (fun x => count_byte x k = 0) l -> count_byte sep k = 0 -> count_byte (join l sep) k = 0.
+  Proof.
+    intros H Hs. induction H as [|x l Hx Hl IH]; [reflexivity|].
+    destruct l as [|y l]; [exact Hx|].
+    change (join (x :: y :: l) sep) with (x ++ sep ++ join (y :: l) sep).
+    rewrite !count_byte_app, Hx, Hs, IH. reflexivity.
+  Qed.
+
+  Lemma forallb_nob_Forall (l : list bytes) : forallb (nob k) l = true -> Forall (fun x => count_byte x k = 0) l.
+  Proof.
+    intros H. apply Forall_forall. intros x Hx. rewrite forallb_forall in H. apply nob_true. now apply H.
+  Qed.
+
+  Lemma dots_clean (fe : bool) : Forall (fun x => count_byte x k = 0) (if fe then [s2b "..."] else []).
+  Proof. destruct fe; repeat constructor. now apply printable_count. Qed.
+
+  Lemma arg_string_clean (a : Arg) : arg_clean k a = true -> count_byte (arg_string a) k = 0.
+  Proof.
+    induction a as [ag n v ip tl ia fv fp fe IH] using Arg_ind_ui.
+    rewrite arg_clean_eq, arg_string_eq, !andb_true_iff. intros [[Hn Hfp] Hfv].
+    destruct n as [|c n]; [|now apply nob_true].
+    destruct tl; [now apply printable_count|].
+    destruct ag.
+    - rewrite !count_byte_app.
+      rewrite (printable_count (s2b "{") k), (printable_count (s2b "}") k) by (reflexivity || exact Hk).
+      rewrite join_clean; [reflexivity| |now apply printable_count].
+      apply Forall_app. split; [|apply dots_clean].
+      destruct fp as [|x fp]; [|now apply forallb_nob_Forall].
+      apply Forall_forall. intros x Hx. apply in_map_iff in Hx as (a & <- & Ha).
+      rewrite Forall_forall in IH. apply IH; [exact Ha|].
+      rewrite forallb_forall in Hfv. now apply Hfv.
+    - destruct (N.ltb_spec v 10).
+      + cbn [count_byte]. destruct (N.eqb_spec (48 + v) k); [lia|reflexivity].
+      + rewrite count_byte_app, (printable_count (s2b "0x") k) by (reflexivity || exact Hk).
+        apply printable_count; [apply N_to_hex_printable|exact Hk].
+  Qed.
+
+  Lemma args_string_clean (a : Args) : args_clean k a = true -> count_byte (args_string a) k = 0.
+  Proof.
+    unfold args_clean, args_string. rewrite andb_true_iff. intros [Hv Hp].
+    apply join_clean; [|now apply printable_count].
+    apply Forall_app. split; [|apply dots_clean].
+    destruct (Processed a) as [|x l]; [|now apply forallb_nob_Forall].
+    apply Forall_forall. intros x Hx. apply in_map_iff in Hx as (b & <- & Hb).
+    apply arg_string_clean. rewrite forallb_forall in Hv. now apply Hv.
+  Qed.
+
+  Lemma dump_clean_call_ok c : dump_clean_call k c = true -> clean_call k c = true.
+  Proof.
+    unfold dump_clean_call, clean_call. rewrite !andb_true_iff. intros [H Ha]. split; [exact H|].
+    unfold nob. apply Nat.eqb_eq. now apply args_string_clean.
+  Qed.
+
+  Lemma dump_clean_calls_ok cs : forallb (dump_clean_call k) cs = true -> forallb (clean_call k) cs = true.
+  Proof.
+    intros H. apply forallb_forall. intros c Hc. apply dump_clean_call_ok. rewrite forallb_forall in H. now apply H.
+  Qed.
+
+  Theorem dump_clean_sig_ok s : dump_clean_sig k s = true -> clean_sig k s = true.
+  Proof.
+    unfold dump_clean_sig, clean_sig, clean_stack. rewrite !andb_true_iff. intros [[H1 H2] H3].
+    split; [split|]; [exact H1|now apply dump_clean_calls_ok|now apply dump_clean_calls_ok].
+  Qed.
+End DumpClean.
+
+Theorem dump_no_lf s : dump_clean_sig LF s = true -> no_lf_sig s = true.
+Proof. apply dump_clean_sig_ok. reflexivity. Qed.
+Theorem dump_no_esc s : dump_clean_sig ESC s = true -> no_esc_sig s = true.
+Proof. apply dump_clean_sig_ok. reflexivity. Qed.
+
+Lemma csi_palette_check (p : palette) : forallb csi_stringb p = true -> Forall csi_string p.
+Proof.
+  intros H. apply Forall_forall. intros x Hx. apply csi_stringb_sound. rewrite forallb_forall in H. now apply H.
+Qed.
+
+(* ================================================================== *)
+(* examples                                                            *)
+(* ================================================================== *)
+Module Ex.
+  (* "ünï": 5 bytes, 3 runes *)
+  Definition uni : bytes := [195; 188; 110; 195; 175]%N.
+  Definition f_main : Func := mkFunc (s2b "main.main") (s2b "main") (s2b "main") (s2b "main") false true.
+  Definition f_do : Func := mkFunc (uni ++ s2b ".Do") uni uni (s2b "Do") true false.
+  Definition args_do : Args :=
+    mkArgs [MkArg false [] 1 false false false [] [] false; MkArg false [] 4096 true false false [] [] false] [] true.
+  Definition c_main (line : Z) : Call :=
+    mkCall f_main emptyArgs (s2b "/src/main.go") line (s2b "main.go") (s2b "src") (s2b "/src/main.go") (s2b "main.go") (s2b "main") GoMod.
+  Definition c_do : Call :=
+    mkCall f_do args_do (s2b "/gopath/x/longer_name.go") 7 (s2b "longer_name.go") (s2b "x") [] [] (s2b "x") GOPATH.
+  Definition s1 : Signature := mkSig (s2b "running") emptyStack 0 0 (mkStack [c_do; c_main 12] false) false.
+  Definition s2 : Signature := mkSig (s2b "chan receive") (mkStack [c_main 30] false) 2 5 (mkStack [c_do] true) true.
+  Definition b1 : Bucket := mkBucket s1 [1%Z] true.
+  Definition b2 : Bucket := mkBucket s2 [5%Z; 6%Z; 7%Z] false.
+  Definition bs : list Bucket := [b1; b2].
+
+  Definition esc (s : string) : bytes := ESC :: s2b s.
+  (* 19 real CSI strings, slot 0 (EOLReset) being two sequences *)
+  Definition colours : palette :=
+    [esc "[39m" ++ esc "[m"; esc "[0;1;35m"; esc "[0;35m"; esc "[0;90m"; esc "[0;1;31m"; esc "[0;31m"; esc "[0m";
+     esc "[0;1;33m"; esc "[0;1;35m"; esc "[0;31m"; esc "[0;31m"; esc "[0;1;31m"; esc "[0;31m"; esc "[0;1;31m";
+     esc "[0;33m"; esc "[0;1;33m"; esc "[0;32m"; esc "[0;1;32m"; esc "[0;35m"].
+
+  Definition rendered : bytes :=
+    s2b "1: running" ++ [LF] ++
+    s2b "    " ++ uni ++ s2b "   longer_name.go:7 Do(1, 0x1000, ...)" ++ [LF] ++
+    s2b "    main  main.go:12       main()" ++ [LF] ++
+    s2b "3: chan receive [2~5 minutes] [locked] [Created by main.main @ main.go:30]" ++ [LF] ++
+    s2b "    " ++ uni ++ s2b "   longer_name.go:7 Do(1, 0x1000, ...)" ++ [LF] ++
+    s2b "    (...)" ++ [LF].
+
+  Lemma widths : calc_lengths BasePath (map BSig bs) = (16, 5).
+  Proof. vm_compute. reflexivity. Qed.
+
+  Lemma render : flatten empty_palette (write_buckets empty_palette None None BasePath false bs) = rendered.
+  Proof. vm_compute. reflexivity. Qed.
+
+  (* byte offsets of the file column differ (12 vs 10), rune offsets agree *)
+  Lemma columns :
+    map (fun c => List.length (line_pre1 5 c)) [c_do; c_main 12] = [12; 10] /\
+    map (fun c => rune_count (line_pre1 5 c)) [c_do; c_main 12] = [10; 10] /\
+    map (fun c => rune_count (line_pre2 BasePath 16 5 c)) [c_do; c_main 12] = [27; 27].
+  Proof. vm_compute. repeat split; reflexivity. Qed.
+
+  Lemma colours_csi : Forall csi_string colours.
+  Proof. apply csi_palette_check. vm_compute. reflexivity. Qed.
+
+  Lemma no_esc : forallb (fun b => no_esc_sig (BSig b)) bs = true.
+  Proof. vm_compute. reflexivity. Qed.
+
+  Lemma colour :
+    strip_csi (flatten colours (write_buckets colours None None BasePath true bs)) =
+    flatten empty_palette (write_buckets empty_palette None None BasePath true bs) /\
+    List.length (flatten colours (write_buckets colours None None BasePath true bs)) = 450 /\
+    List.length (flatten empty_palette (write_buckets empty_palette None None BasePath true bs)) = 306.
+  Proof.
+    split; [apply colour_erasure; [exact colours_csi|exact no_esc]|]. vm_compute. split; reflexivity.
+  Qed.
+
+  Definition is_running (h : bytes) : bool := contains h (s2b "running").
+
+  Lemma split :
+    flatten empty_palette (write_buckets empty_palette None (Some is_running) BasePath false bs) =
+      s2b "1: running" ++ [LF] ++
+      s2b "    " ++ uni ++ s2b "   longer_name.go:7 Do(1, 0x1000, ...)" ++ [LF] ++
+      s2b "    main  main.go:12       main()" ++ [LF] /\
+    flatten empty_palette (write_buckets empty_palette (Some is_running) None BasePath false bs) =
+      s2b "3: chan receive [2~5 minutes] [locked] [Created by main.main @ main.go:30]" ++ [LF] ++
+      s2b "    " ++ uni ++ s2b "   longer_name.go:7 Do(1, 0x1000, ...)" ++ [LF] ++
+      s2b "    (...)" ++ [LF].
+  Proof. vm_compute. split; reflexivity. Qed.
+
+  (* an empty, non-elided stack still prints one (empty) line *)
+  Lemma empty_stack :
+    flatten empty_palette (bucket_block BasePath 0 0 false (mkBucket emptySig [1%Z] true)) = s2b "1: " ++ [LF; LF].
+  Proof. vm_compute. reflexivity. Qed.
+
+  (* a malformed sequence is kept, complete ones are dropped *)
+  Lemma strip :
+    strip_csi (esc "[1;31m" ++ s2b "a" ++ esc "]" ++ s2b "b" ++ esc "[0m") = s2b "a" ++ esc "]" ++ s2b "b" /\
+    strip_csi (s2b "x" ++ esc "[3" ) = s2b "x" ++ esc "[3".
+  Proof. vm_compute. split; reflexivity. Qed.
+End Ex.
